@@ -126,6 +126,7 @@ theorem MovesContent_applyOp {st st' : Store} (inv : MovesContent st) (o : Store
     rw [sig_insertMoves, sig_toRows, sig_fwdMoves, recsSigs_append, inv]
     simp [recsSigs, Store.txRecs]
   | lock keys => simp only [applyOp] at h; cases h; exact inv
+  | saveAccountMeta a at_ md => simp only [applyOp] at h; cases h; exact inv
   | markReverted id a =>
     simp only [applyOp] at h; cases h
     unfold MovesContent at *
